@@ -9,6 +9,17 @@ Measured on the real library (by wrapping module attributes from the harness, no
   * calls of any Operator.expand (numerical expansion must never happen for these queries),
   * wall time (generous threshold, sanity only).
 
+Namespace cases (`kind: ns`): the property starts with "Reading definitions": the same shape is also rendered as a
+NAMESPACE of DSDL files - one file per composite, several minor versions of a type under one major version (fields
+renamed, a void turned into a field of the same width and back, a constant added, for delimited types a field added /
+dropped under the same extent), other major versions and v0.x versions with other layouts, a service (two minor
+versions) whose sections refer to the types, `@assert` / `@print` directives that do not mention `_offset_` /
+`_bit_length_` - and read with read_namespace (twice: the second reading gives independently built types for == and
+hash) under the same counters, at FOUR capacity scales: a few hundred / tens of thousands (same 16-bit length prefixes)
+and just above 2**32 / up to 2**63 (same 64-bit prefixes).  Within each pair the layouts differ in nothing but the
+counts, so the counters and the implementation-independent number of calls must coincide (up to noise); the small pair
+is measured first, so that a reader whose cost grows with the capacities is caught before it is given 2**32 elements.
+
 Model side: Op.cost of the same query script (uncached, so an upper bound for the memoised library).
 Oracle (independent of the model): the work at the huge scale does not exceed the work at the moderate scale
 (repetition counts are congruent modulo 32 and saturated, so the library's `equivalent k` is the same), expansion is never called, and
@@ -155,15 +166,20 @@ def scale(t, level: int, rng):
     if k in ("prim", "void"):
         return t
     if k in ("farr", "varr"):
-        m = [rng.choice([1, 2, 3, 5]), 2**24 + rng.choice([1, 2, 3, 5]), rng.choice([2**34, 2**44, 2**53, 2**55])][level]
+        # (level 3 = level 0 + 192: still below 2**16, hence the same length prefixes as level 0; same rng consumption)
+        m = [rng.choice([1, 2, 3, 5]), 2**24 + rng.choice([1, 2, 3, 5]), rng.choice([2**34, 2**44, 2**53, 2**55]),
+             192 + rng.choice([1, 2, 3, 5])][level]
         return [k, scale(t[1], level, rng), 256 * m]
     if k in ("struct", "union"):
         return [k, [scale(f, level, rng) for f in t[1]]]
     inner = scale(t[1], level, rng)
     nodes: list = []
     mx = B.o_max(nodes, L.s_nodes(L.strip(inner), nodes))
-    ext = -(-mx // 2048) * 2048 + 2048 * [1, 2**22, 2**45][level]
+    ext = -(-mx // 2048) * 2048 + 2048 * EXT_MULT[level]
     return ["delim", inner, ext]
+
+
+EXT_MULT = [1, 2**22, 2**45, 16]
 
 
 def instantiate(shape, sseed: int) -> dict:
@@ -200,7 +216,315 @@ def predicted_cost(t) -> int:
     return total
 
 
+# ------------------------------------------------------------------------------- namespaces
+
+NS_LEVELS = (("ty", 0), ("ty0b", 3), ("ty3", 1), ("ty2", 2))       # measured in this order
+SCALE_CAP = [256 * 3, 256 * (2**24 + 3), 256 * 2**44, 256 * (192 + 3)]
+NS_COST_GUARD = 60_000
+NS_GUARD_S = 10
+
+
+def composites(t):
+    """Composite nodes of a type tree (a delimited type and its inner type are one definition)."""
+    k = t[0]
+    if k in ("struct", "union", "delim"):
+        yield t
+        body = t[1] if k == "delim" else t
+        for f in body[1]:
+            yield from composites(f)
+    elif k in ("farr", "varr"):
+        yield from composites(t[1])
+
+
+def add_voids(rng, t):
+    """Padding fields in structures (a minor revision typically gives a name to a reserved field)."""
+    k = t[0]
+    if k in ("farr", "varr"):
+        return [k, add_voids(rng, t[1]), t[2]]
+    if k == "delim":
+        return [k, add_voids(rng, t[1]), t[2]]
+    if k == "union":
+        return [k, [add_voids(rng, f) for f in t[1]]]
+    if k == "struct":
+        fs = [add_voids(rng, f) for f in t[1]]
+        if rng.random() < 0.5:
+            fs.insert(rng.randrange(len(fs) + 1), ["void", rng.choice([1, 4, 8, 8, 16, 32])])
+        return [k, fs]
+    return t
+
+
+DIRECTIVES = ["@assert 2 + 2 == 4", "@print 1 + 1", "@assert true", '@print "note"', "@assert 8 % 3 == 2", "# a comment",
+              "@assert {1, 2} != {3}", "@print {1, 2, 3} * 2", ""]
+
+
+def render_ns(t, nseed: int, level: int):
+    """(files of the namespace `ns`, type trees of the definitions that are not part of `t`, features).  Every decoration is drawn from
+    Random(nseed) and depends on the STRUCTURE of `t` only, so all capacity scales of a shape get the same namespace up to
+    the numbers."""
+    rng = random.Random(nseed)
+    files: dict = {}
+    feats: set = set()
+    names = L._Names()
+    defined: list = []     # (name, tree, minor versions) in definition order
+    extra: list = []       # type trees of the further definitions (other major versions, service sections)
+
+    def prim_text(x):
+        return L.dsdl_type_text(x, {}, names)
+
+    def type_text(x):
+        k = x[0]
+        if k in ("prim", "void"):
+            return prim_text(x)
+        if k == "farr":
+            return "%s[%d]" % (type_text(x[1]), x[2])
+        if k == "varr":
+            return "%s[<=%d]" % (type_text(x[1]), x[2])
+        name, minors = define(x)
+        return "ns.%s.1.%d" % (name, rng.choice(minors))
+
+    def define(x):
+        name = names.fresh()
+        ext = x[2] if x[0] == "delim" else None
+        body = x[1] if x[0] == "delim" else x
+        union = body[0] == "union"
+        fields = body[1]
+        ftexts = [type_text(f) for f in fields]
+        others = [d[0] for d in defined]
+
+        def text(variant):
+            lines = ["@union"] if union else []
+            pick = None
+            if variant == "void2field":
+                pick = rng.choice([i for i, f in enumerate(fields) if f[0] == "void"])
+            if variant == "field2void":
+                pick = rng.choice([i for i, f in enumerate(fields) if f[0] == "prim"])
+            n = len(fields) - 1 if variant == "dropfield" else len(fields)
+            for i in range(n):
+                if rng.random() < 0.25:
+                    d = rng.choice(DIRECTIVES)
+                    if others and rng.random() < 0.3:
+                        d = "@assert ns.%s.1.0._extent_ >= 0" % rng.choice(others)
+                        feats.add("directive:_extent_")
+                    lines.append(d)
+                    feats.add("directive")
+                f, ft = fields[i], ftexts[i]
+                if f[0] == "void":
+                    lines.append("saturated uint%d v%d" % (f[1], i) if i == pick else ft)
+                elif i == pick:
+                    lines.append("void%d" % f[1])
+                else:
+                    lines.append("%s %s%d" % (ft, "g" if variant == "rename" else "f", i))
+            if variant == "addfield":
+                lines.append("saturated uint8 extra")
+            if variant == "const":
+                lines.append("uint8 K = 1")
+            lines.append("@sealed" if ext is None else "@extent %d" % ext)
+            return "\n".join(lines) + "\n"
+
+        files["%s.1.0.dsdl" % name] = text("base")
+        minors = [0]
+        options = ["rename", "rename", "const", "same"]
+        if not union and any(f[0] == "void" for f in fields):
+            options += ["void2field"] * 3
+        if not union and any(f[0] == "prim" for f in fields):
+            options += ["field2void"]
+        if ext is not None and not union:
+            options += ["addfield"] + (["dropfield"] if fields else [])
+        for minor in range(1, rng.choice([0, 0, 1, 1, 1, 2]) + 1):
+            v = rng.choice(options)
+            files["%s.1.%d.dsdl" % (name, minor)] = text(v)
+            minors.append(minor)
+            feats.add("minor:" + v)
+            feats.add("minor:%s/%s" % ("sealed" if ext is None else "delimited", "union" if union else "struct"))
+        cap = SCALE_CAP[level]
+        if rng.random() < 0.2:       # v0.x: exempt from every compatibility requirement
+            files["%s.0.1.dsdl" % name] = "uint8[<=%d] a\n@sealed\n" % cap
+            files["%s.0.2.dsdl" % name] = "uint16[<=%d] a\nuint8 b\n@extent %d\n" % (cap, 16 * cap + 2048)
+            extra.append(["struct", [["varr", ["prim", 8, "uintsat"], cap]]])
+            extra.append(["delim", ["struct", [["varr", ["prim", 16, "uintsat"], cap], ["prim", 8, "uintsat"]]], 16 * cap + 2048])
+            feats.add("major0")
+        if rng.random() < 0.2:       # another major version: another layout
+            files["%s.2.0.dsdl" % name] = "ns.%s.1.0 older\nuint8[<=%d] more\n@sealed\n" % (name, cap)
+            extra.append(["struct", [x, ["varr", ["prim", 8, "uintsat"], cap]]])
+            feats.add("major2")
+        defined.append((name, x, minors))
+        return name, minors
+
+    define(t)
+    # a service whose sections refer to the definitions (and the definitions' arrays)
+    if rng.random() < 0.7:
+        texts = []
+        for _sec in range(2):
+            trees, lines = [], []
+            for i in range(rng.choice([1, 2, 2, 3])):
+                name, tree, minors = rng.choice(defined)
+                ref = "ns.%s.1.%d" % (name, rng.choice(minors))
+                c = rng.random()
+                if c < 0.4:
+                    trees.append(tree)
+                    lines.append([ref, i])
+                elif c < 0.55:
+                    trees.append(["varr", tree, SCALE_CAP[level]])
+                    lines.append(["%s[<=%d]" % (ref, SCALE_CAP[level]), i])
+                elif c < 0.7:
+                    trees.append(["farr", tree, 3])
+                    lines.append(["%s[3]" % ref, i])
+                else:
+                    trees.append(["prim", 8, "uintsat"])
+                    lines.append(["saturated uint8", i])
+            sec = ["struct", trees]
+            tail = "@sealed"
+            if rng.random() < 0.4:
+                nodes: list = []
+                mx = B.o_max(nodes, L.s_nodes(L.strip(sec), nodes))
+                sec = ["delim", sec, -(-mx // 2048) * 2048 + 2048 * EXT_MULT[level]]
+                tail = "@extent %d" % sec[2]
+            extra.append(sec)
+            texts.append((lines, tail))
+        for minor in range(rng.choice([1, 1, 2])):
+            files["Svc.1.%d.dsdl" % minor] = "\n---\n".join(
+                "\n".join(["%s %s%d" % (ft, "q" if minor else "p", i) for ft, i in lines] + [tail]) for lines, tail in texts) + "\n"
+        feats.add("service")
+        if minor:
+            feats.add("minor:service")
+    feats.add("files:%s" % ("<=4" if len(files) <= 4 else "<=10" if len(files) <= 10 else ">10"))
+    return files, extra, sorted(feats)
+
+
+_WARM = [False]
+
+
+def _warm(pydsdl) -> None:
+    """One unmeasured reading per process (grammar compilation, imports), so that the first measured one is not inflated."""
+    import tempfile
+    from pathlib import Path
+
+    if _WARM[0]:
+        return
+    with tempfile.TemporaryDirectory() as d:
+        root = Path(d) / "ns"
+        root.mkdir()
+        (root / "A.1.0.dsdl").write_text("uint8[<=4] a\nvoid3\n@assert 1 + 1 == 2\n@sealed\n")
+        (root / "A.1.1.dsdl").write_text("uint8[<=4] a\nuint3 b\n@sealed\n")
+        (root / "B.1.0.dsdl").write_text("@union\nA.1.0 a\nbool b\n@print {1} * 2\n@extent 800\n")
+        (root / "S.1.0.dsdl").write_text("B.1.0[<=2] b\n@sealed\n---\nfloat16[2] x\n@extent 64\n")
+        pydsdl.read_namespace(root, print_output_handler=lambda *a: None)
+    _WARM[0] = True
+
+
+def query(pydsdl, ty, ty2, out: list) -> None:
+    b = ty.bit_length_set
+    b.min, b.max, ty.extent
+    out += [bool(b.fixed_length), bool(b.is_aligned_at_byte())]
+    for _f, o in ty.iterate_fields_with_offsets():
+        out.append(bool(o.is_aligned_at_byte()))
+    out.append(bool(ty == ty2))
+    out.append(hash(ty) == hash(ty2))
+
+
+def ns_script(pydsdl, t, nseed: int, level: int) -> dict:
+    """Write the namespace, read it twice and run the property's queries on every type; returns the measured work."""
+    import tempfile
+    from pathlib import Path
+
+    files, _sections, _feats = render_ns(t, nseed, level)
+    with tempfile.TemporaryDirectory() as d:
+        root = Path(d) / "ns"
+        root.mkdir()
+        for fn, text in files.items():
+            (root / fn).write_text(text)
+        with Meter(pydsdl) as m:
+            t0 = time.time()
+            types = pydsdl.read_namespace(root, print_output_handler=lambda *a: None)
+            types2 = pydsdl.read_namespace(root, print_output_handler=lambda *a: None)
+            build = m.snapshot()
+            out: list = [None, None, None, len(types)]
+            # the definition of `t` itself first: its share of the work is what the model's cost bounds
+            pairs = sorted(zip(types, types2), key=lambda p: str(p[0]) != "ns.T1.1.0")
+            main_items = None
+            for ty, ty2 in pairs:
+                if main_items is None and len(out) > 4:
+                    main_items = m.snapshot()[0] - build[0]
+                if isinstance(ty, pydsdl.ServiceType):
+                    query(pydsdl, ty.request_type, ty2.request_type, out)
+                    query(pydsdl, ty.response_type, ty2.response_type, out)
+                    out += [bool(ty == ty2), hash(ty) == hash(ty2)]
+                else:
+                    query(pydsdl, ty, ty2, out)
+            total = m.snapshot()
+            wall = time.time() - t0
+            degraded = list(m.degraded)
+    if main_items is None:
+        main_items = total[0] - build[0]
+    return {"build_items": build[0], "build_leaf": build[1], "items": total[0] - build[0], "leaf": total[1] - build[1],
+            "expands": total[2], "wall": wall, "answers": out, "calls": total[3], "soft_degraded": degraded,
+            "main_items": main_items, "main_found": str(pairs[0][0]) == "ns.T1.1.0", "soft_read_calls": build[3], "soft_files": len(files)}
+
+
+def grows(small: dict, large: dict) -> typing.Optional[str]:
+    """The two scales differ in nothing but the repetition counts: same enumeration work, same calls (up to noise)."""
+    for key in ("items", "leaf", "build_items", "build_leaf"):
+        if large[key] > small[key]:
+            return "%s is %d at the smaller and %d at the larger capacities" % (key, small[key], large[key])
+    if large.get("calls", 0) > 1.05 * small.get("calls", 0) + 200:
+        return "%d calls at the smaller and %d at the larger capacities" % (small.get("calls", 0), large.get("calls", 0))
+    return None
+
+
+def ns_impl(pydsdl, case) -> dict:
+    import signal
+
+    _warm(pydsdl)
+    out: dict = {"res": "ok"}
+    recs = {}
+    for key, level in NS_LEVELS:
+        if signal.getsignal(signal.SIGALRM) not in (signal.SIG_DFL, signal.SIG_IGN, None):
+            signal.alarm(NS_GUARD_S)      # the harness' own guard (its handler), tightened: a reading is a matter of milliseconds
+        recs[key] = ns_script(pydsdl, case[key], case["nseed"], level)
+        if key == "ty" and recs[key]["expands"]:
+            break      # an expanding reader is not given larger capacities
+        if key == "ty0b" and grows(recs["ty"], recs["ty0b"]):
+            break      # nor one whose cost has just grown with the capacity
+    out["a"] = recs["ty"]
+    out["a2"] = recs.get("ty0b", recs["ty"])
+    out["m"] = recs.get("ty3", out["a2"])
+    out["b"] = recs.get("ty2", out["m"])
+    out["levels"] = len(recs)
+    return out
+
+
+def ns_predicted(c, level_key: str, level: int) -> int:
+    t = c[level_key]
+    _files, extra, _ = render_ns(t, c["nseed"], level)
+    return sum(predicted_cost(x) for x in composites(t)) + sum(predicted_cost(x) for x in extra)
+
+
+def gen_ns_case(rng, prop):
+    for _ in range(300):
+        shape = gen_shape(rng, rng.choice([1, 2, 2, 3]), top=True)
+        if shape[0] not in ("struct", "union", "delim"):
+            shape = ["struct", [shape, ["prim", 8, "uintsat"]]]
+        shape = add_voids(rng, shape)
+        if sum(1 for _x in composites(shape)) > 8 or L.nested_arrays(shape):      # (DSDL has no arrays of arrays)
+            continue
+        try:
+            sseed = rng.randrange(10**6)
+            c = {"kind": "ns", "shape": shape, "sseed": sseed, "nseed": rng.randrange(10**6)}
+            for key, level in NS_LEVELS:
+                c[key] = scale(shape, level, random.Random(sseed))
+            if not all(L.s_valid(L.strip(c[k])) for k, _ in NS_LEVELS):
+                continue
+            if max(ns_predicted(c, k, lv) for k, lv in NS_LEVELS) > NS_COST_GUARD:
+                continue
+        except Exception:
+            continue
+        return c
+    raise RuntimeError("generator failed")
+
+
 def gen_case(rng, prop):
+    if rng.random() < 0.2:
+        return gen_ns_case(rng, prop)
     for _ in range(200):
         shape = gen_shape(rng, rng.choice([1, 2, 2, 3, 3, 4]), top=True)
         try:
@@ -231,10 +555,25 @@ class CostSuite(common.Suite):
             ["struct", [["varr", ["delim", ["struct", [u8]], 0], 1]]],
             ["delim", ["struct", [["varr", ["struct", [["varr", u8, 1], b1]], 1]]], 0],
         ]
-        return [instantiate(sh, i) for i, sh in enumerate(shapes)]
+        out = [instantiate(sh, i) for i, sh in enumerate(shapes)]
+        # namespaces: two minor versions of a sealed variable-length type (a reserved void gets a name), a service; nested
+        for sh, nseed in ((["struct", [["prim", 16, "uintsat"], ["void", 8], ["varr", u8, 1]]], 14),
+                          (["struct", [["varr", ["struct", [["void", 8], ["varr", u8, 1]]], 1], u8]], 6)):
+            c = {"kind": "ns", "shape": sh, "sseed": 0, "nseed": nseed}
+            for key, level in NS_LEVELS:
+                c[key] = scale(sh, level, random.Random(0))
+            out.append(c)
+        return out
 
     def run_impl(self, case):
         pydsdl = common.import_pydsdl()
+        if case.get("kind") == "ns":
+            try:
+                return ns_impl(pydsdl, case)
+            except (common._Timeout, MemoryError):
+                raise      # the harness turns these into outcomes of their own
+            except Exception as ex:
+                return {"res": "exc:" + type(ex).__name__, "soft": str(ex)[:300]}
         try:
             a = script(pydsdl, case["ty"])
             b = script(pydsdl, case["ty2"])
@@ -254,18 +593,31 @@ class CostSuite(common.Suite):
         if impl["res"] != "ok":
             return None
         # the model counts uncached enumeration; the library memoises, so it may only do less
-        if impl["a"]["items"] > model["cost"]:
-            return "moderate scale: library enumerated %d items, model cost %d" % (impl["a"]["items"], model["cost"])
-        if impl["b"]["items"] > model["cost2"]:
-            return "huge scale: library enumerated %d items, model cost %d" % (impl["b"]["items"], model["cost2"])
+        # (namespace cases: the model's type is the definition ns.T1.1.0, queried first)
+        key = "main_items" if case.get("kind") == "ns" else "items"
+        if impl["a"][key] > model["cost"]:
+            return "moderate scale: library enumerated %d items, model cost %d" % (impl["a"][key], model["cost"])
+        if impl["b"][key] > model["cost2"]:
+            return "huge scale: library enumerated %d items, model cost %d" % (impl["b"][key], model["cost2"])
+        if case.get("kind") == "ns" and not (impl["a"]["main_found"] and impl["b"]["main_found"]):
+            return "the namespace that was read does not contain ns.T1.1.0"
         return None
 
     def oracle(self, case, impl, prop):
+        if impl.get("timeout") or impl.get("memory_error"):
+            return "%s did not finish: %s" % ("reading the namespace and the layout queries" if case.get("kind") == "ns" else "the layout queries",
+                                              "time guard exceeded" if impl.get("timeout") else "more than 2 GiB of memory requested")
         if impl.get("res") != "ok":
             return "valid type not analysed: %s %s" % (impl.get("res"), impl.get("soft"))
         a, b, m = impl["a"], impl["b"], impl["m"]
         if a["expands"] or b["expands"] or m["expands"]:
-            return "numerical expansion was triggered %d/%d/%d times by layout queries" % (a["expands"], m["expands"], b["expands"])
+            return "numerical expansion was triggered %d/%d/%d times by %s" % (
+                a["expands"], m["expands"], b["expands"], "reading the namespace and layout queries" if "a2" in impl else "layout queries")
+        if "a2" in impl:
+            # capacities of a few hundred and of tens of thousands: same (16-bit) prefixes, congruent counts
+            g = grows(a, impl["a2"])
+            if g:
+                return "work grows with capacity (reading a namespace, a few hundred vs tens of thousands of elements): %s" % g
         for key in ("items", "leaf", "build_items", "build_leaf"):
             # capacities just above 2**32 and up to 2**63 give identical layouts up to the counts: no growth at all
             if b[key] > m[key]:
@@ -278,6 +630,8 @@ class CostSuite(common.Suite):
             return "work grows with capacity: the query script makes %d calls for capacities just above 2**32 and %d for capacities up to 2**63" % (m.get("calls", 0), b.get("calls", 0))
         if b["items"] + b["leaf"] + b["build_items"] + b["build_leaf"] > WORK_BUDGET:
             return "analysis enumerated %d items (budget %d)" % (b["items"] + b["leaf"] + b["build_items"] + b["build_leaf"], WORK_BUDGET)
+        if "a2" in impl and impl.get("levels") != len(NS_LEVELS):
+            return "the namespace was not read at every capacity scale (%s of %d)" % (impl.get("levels"), len(NS_LEVELS))
         if max(a["wall"], b["wall"], m["wall"]) > TIME_BUDGET_S:
             return "analysis took %.1f s" % max(a["wall"], b["wall"], m["wall"])
         if m["answers"][3:] != b["answers"][3:]:
@@ -291,6 +645,22 @@ class CostSuite(common.Suite):
     def shrink(self, case):
         if "shape" not in case:
             return
+        if case.get("kind") == "ns":
+            for sh in L.shrink_ty(case["shape"]):
+                if sh[0] not in ("struct", "union", "delim"):
+                    continue
+                try:
+                    c = {"kind": "ns", "shape": sh, "sseed": case["sseed"], "nseed": case["nseed"]}
+                    for key, level in NS_LEVELS:
+                        c[key] = scale(sh, level, random.Random(case["sseed"]))
+                    if all(L.s_valid(L.strip(c[k])) for k, _ in NS_LEVELS):
+                        yield c
+                except Exception:
+                    continue
+            for ns2 in range(8):
+                if ns2 != case["nseed"]:
+                    yield dict(case, nseed=ns2)
+            return
         for sh in L.shrink_ty(case["shape"]):
             if sh[0] not in ("struct", "union", "delim", "farr", "varr"):
                 continue
@@ -302,6 +672,13 @@ class CostSuite(common.Suite):
                 continue
 
     def features(self, case, impl):
+        yield "kind:" + case.get("kind", "constructors")
+        if case.get("kind") == "ns":
+            try:
+                for f in render_ns(case["ty"], case["nseed"], 0)[2]:
+                    yield "ns:" + f
+            except Exception:
+                yield "ns:unrenderable"
         for k in set(L.kinds(case["ty2"])):
             yield "has:" + k
         yield "depth:%d" % L.tdepth(case["ty"])
